@@ -768,6 +768,31 @@ def _match(t, p, b):
 
 
 _PAT_CACHE = {}
+ALIASES = {}      # canonical private helper name -> current name (sa.roles)
+_ALIAS_RE = [None]
+
+
+def set_aliases(d):
+    import re
+    ALIASES.clear()
+    ALIASES.update(d or {})
+    _PAT_CACHE.clear()
+    if ALIASES:
+        _ALIAS_RE[0] = re.compile(r'(?<![A-Za-z0-9_])(' + '|'.join(
+            re.escape(k) for k in sorted(ALIASES, key=len, reverse=True)) + r')(?![A-Za-z0-9_])')
+    else:
+        _ALIAS_RE[0] = None
+
+
+def alias(name):
+    """Current name of a private helper known under its canonical name."""
+    return ALIASES.get(name, name)
+
+
+def apply_aliases(src):
+    if _ALIAS_RE[0] is None:
+        return src
+    return _ALIAS_RE[0].sub(lambda m: ALIASES[m.group(1)], src)
 
 
 def pattern(src):
@@ -782,7 +807,7 @@ def pattern(src):
         return src
     p = _PAT_CACHE.get(src)
     if p is None:
-        e = ast.parse(src, mode='eval').body
+        e = ast.parse(apply_aliases(src), mode='eval').body
         p = to_term(e, Scope(pattern=True))
         _PAT_CACHE[src] = p
     return p
